@@ -176,7 +176,7 @@ Proof. rewrite p_txt_app. apply s_head_not_paren. Qed.
 Lemma p_head a k : ws_free (app (p_txt a) k).
 Proof. rewrite p_txt_app. apply s_head_free. Qed.
 Lemma p_not_not a k : fspecj not_alt1 (app (p_txt a) k).
-Proof. rewrite p_txt_app. apply s_head_not_not. Qed.
+Proof. rewrite p_txt_app. unfold p_txtK. apply s_head_not_not. apply op_text_sstop. Qed.
 
 (* the closed theorem over: is [not] empty; the six value operators with a quoted literal; in / contains; quantifiers *)
 Definition atom4 := (atom3 + opatom)%type.
